@@ -23,12 +23,15 @@ pub struct Mdl {
     pub items: Vec<Item>,
     pub parents: Vec<Item>,
 }
-pub fn c15_check(model: &Mdl) -> Vec<u32> {
+pub struct Warning {
+    pub id: Option<u32>,
+}
+pub fn c15_check(model: &Mdl) -> Vec<Warning> {
     let ids: std::collections::HashSet<u32> = model.parents.iter().map(|p| p.id).collect();
     let mut warnings = Vec::new();
     model.items.iter().for_each(|i| {
         if ids.contains(&i.parent) {
-            warnings.push(i.id);
+            warnings.push(Warning { id: Some(i.id) });
         }
     });
     warnings
